@@ -111,6 +111,7 @@ namespace pika::threads::detail {
             std::memory_order exchange_order = std::memory_order_seq_cst) noexcept
         // NOLINTEND(bugprone-easily-swappable-parameters)
         {
+            PIKA_VERIF_SCOPE("sw.set", this, verif_word());
             thread_state prev_state = current_state_.load(load_order);
 
             for (;;)
@@ -137,6 +138,7 @@ namespace pika::threads::detail {
             thread_state& new_tagged_state,
             std::memory_order exchange_order = std::memory_order_seq_cst) noexcept
         {
+            PIKA_VERIF_SCOPE("sw.tagged", this, verif_word());
             new_tagged_state = thread_state(newstate, prev_state.state_ex(), prev_state.tag() + 1);
 
             thread_state tmp = prev_state;
@@ -170,6 +172,7 @@ namespace pika::threads::detail {
             std::memory_order load_exchange = std::memory_order_seq_cst) noexcept
         // NOLINTEND(bugprone-easily-swappable-parameters)
         {
+            PIKA_VERIF_SCOPE("sw.restore1", this, verif_word());
             // ignore the state_ex while compare-exchanging
             thread_state current_state = current_state_.load(load_order);
             thread_restart_state state_ex = current_state.state_ex();
@@ -188,6 +191,7 @@ namespace pika::threads::detail {
             thread_state old_state,
             std::memory_order load_exchange = std::memory_order_seq_cst) noexcept
         {
+            PIKA_VERIF_SCOPE("sw.restore2", this, verif_word());
             // ABA prevention for state only (not for state_ex)
             std::int64_t tag = old_state.tag();
             if (new_state != old_state.state()) ++tag;
@@ -208,6 +212,7 @@ namespace pika::threads::detail {
         ///                 changed using the thread_manager.
         thread_restart_state set_state_ex(thread_restart_state new_state) noexcept
         {
+            PIKA_VERIF_SCOPE("sw.setex", this, verif_word());
             thread_state prev_state = current_state_.load(std::memory_order_acquire);
 
             for (;;)
@@ -496,6 +501,19 @@ namespace pika::threads::detail {
 
     private:
         mutable std::atomic<thread_state> current_state_;
+#if defined(PIKA_VERIF_HOOKS)
+    public:
+        // state word as (state << 56 | state_ex << 48 | tag), for the verification log
+        std::uint64_t verif_word() const noexcept
+        {
+            thread_state s = current_state_.load(std::memory_order_relaxed);
+            return (static_cast<std::uint64_t>(static_cast<std::uint8_t>(s.state())) << 56) |
+                (static_cast<std::uint64_t>(static_cast<std::uint8_t>(s.state_ex())) << 48) |
+                static_cast<std::uint64_t>(s.tag());
+        }
+
+    private:
+#endif
 
         ///////////////////////////////////////////////////////////////////////
         // Debugging/logging information
